@@ -82,6 +82,13 @@ def gen_p2(macros):
                 L.append('static_assert(%s::width == %d && avel::Vector_mask<%s, %d>::width == %d, "C19: width constant of Vector<%s,%d>");' % (V, n, ty, n, n, ty, n))
                 L.append('static_assert(std::is_same<avel::vec%dx%s, %s>::value && std::is_same<avel::mask%dx%s, avel::Vector_mask<%s, %d>>::value, "C19: alias vec%dx%s");' % (n, sfx, V, n, sfx, ty, n, n, sfx))
                 L.append('static_assert(std::is_same<avel::arr%dx%s, std::array<%s, %d>>::value, "C19: alias arr%dx%s");' % (n, sfx, ty, n, n, sfx))
+                # the documented member aliases: rebind_width<M> is Vector<scalar, M>, rebind_type<U> is Vector<U, width>, scalar / mask / primitive name the right types
+                for m2 in sorted(set(ws) | {n * 2, 3}):
+                    L.append('static_assert(std::is_same<%s::rebind_width<%d>, avel::Vector<%s, %d>>::value, "C19: Vector<%s,%d>::rebind_width<%d>");' % (V, m2, ty, m2, ty, n, m2))
+                for ty2, bits2, sfx2 in ELEMS:
+                    if bits2 == bits or (ty2, bits2) in (("float", 32), ("std::uint8_t", 8)):
+                        L.append('static_assert(std::is_same<%s::rebind_type<%s>, avel::Vector<%s, %d>>::value, "C19: Vector<%s,%d>::rebind_type<%s>");' % (V, ty2, ty2, n, ty, n, ty2))
+                L.append('static_assert(std::is_same<%s::scalar, %s>::value && std::is_same<%s::mask, avel::Vector_mask<%s, %d>>::value, "C19: member aliases scalar / mask of Vector<%s,%d>");' % (V, ty, V, ty, n, ty, n))
         mx = max(ws)
         L.append('static_assert(vp_complete<avel::vecMx%s>::value && vp_complete<avel::maskMx%s>::value, "C19: vecMx%s names a provided type");' % (sfx, sfx, sfx))
         L.append('static_assert(vp_complete<avel::vecNx%s>::value && vp_complete<avel::maskNx%s>::value, "C19: vecNx%s names a provided type");' % (sfx, sfx, sfx))
@@ -121,6 +128,15 @@ template<class V> void use_common() {
     c = avel::load<V>(buf); c = avel::load<V>(buf, 1u); c = avel::load<V, 1>(buf); c = avel::aligned_load<V>(buf); c = avel::aligned_load<V>(buf, 1u); c = avel::aligned_load<V, 1>(buf);
     avel::store(buf, a); avel::store(buf, a, 1u); avel::store<1>(buf, a); avel::aligned_store(buf, a); avel::aligned_store(buf, a, 1u); avel::aligned_store<1>(buf, a);
     vp_use(avel::to_array(a)); vp_use(avel::decay(a)); vp_use(avel::convert<V>(a)); vp_use(c); vp_use(buf);
+    // const operands on either side of every operator and function; the references the assigning operators return
+    const V ca = a, cb = b; const M cm = m, cn = !m;
+    m = (ca == cb); m = (ca != cb); m = (ca < cb); m = (ca <= cb); m = (ca > cb); m = (ca >= cb); m = cm & cn; m = cm | cn; m = cm ^ cn; m = !cm; m = cm && cn; m = cm || cn;
+    vp_use(cm == cn); vp_use(cm != cn); vp_use(avel::count(cm)); vp_use(avel::any(cm)); vp_use(avel::all(cm)); vp_use(avel::none(cm)); vp_use(avel::extract<0>(cm)); m = avel::insert<0>(cm, true);
+    c = ca + cb; c = ca - cb; c = ca * cb; c = +ca; vp_use(-ca); vp_use(M(ca)); vp_use(V(cm)); vp_use(avel::extract<0>(ca)); c = avel::insert<0>(ca, T(1));
+    c = avel::keep(cm, ca); c = avel::clear(cm, ca); c = avel::blend(cm, ca, cb); c = avel::max(ca, cb); c = avel::min(ca, cb); c = avel::clamp(ca, ca, cb); vp_use(avel::to_array(ca));
+    avel::store(buf, ca); avel::store(buf, ca, 1u); avel::aligned_store(buf, ca);
+    { V& r1 = (c += ca); V& r2 = (c -= ca); V& r3 = (c *= ca); V& r4 = ++c; V& r5 = --c; V& r6 = (c = T(1)); V& r7 = (c = ca); vp_use(&r1); vp_use(&r2); vp_use(&r3); vp_use(&r4); vp_use(&r5); vp_use(&r6); vp_use(&r7); }
+    { M x{true}; M& q1 = (x &= cm); M& q2 = (x |= cm); M& q3 = (x ^= cm); M& q4 = (x = false); M& q5 = (x = cm); vp_use(&q1); vp_use(&q2); vp_use(&q3); vp_use(&q4); vp_use(&q5); }
 }
 template<class V> void use_gather_scatter(std::true_type) {
     typedef typename V::scalar T; typedef avel::Vector<typename avel::to_index_type<T>::type, V::width> IV;
@@ -140,6 +156,10 @@ template<class V> void use_int() {
     c = avel::bit_shift_left<1>(a); c = avel::bit_shift_right<1>(a); c = avel::rotl<1>(a); c = avel::rotr<1>(a);
     c = avel::rotl(a, 1LL); c = avel::rotr(a, 1LL); c = avel::rotl(a, b); c = avel::rotr(a, b);
     c = avel::set_bits(m); c = avel::average(a, b); c = avel::midpoint(a, b);
+    { const V ca = a, cb = b; c = ca / cb; c = ca % cb; c = ~ca; c = ca & cb; c = ca | cb; c = ca ^ cb; c = ca << 1LL; c = ca >> 1LL; c = ca << cb; c = ca >> cb; vp_use(avel::div(ca, cb));
+      c = avel::rotl(ca, cb); c = avel::rotr(ca, 1LL); c = avel::popcount(ca); c = avel::average(ca, cb);
+      V& r1 = (c /= cb); V& r2 = (c %= cb); V& r3 = (c &= ca); V& r4 = (c |= ca); V& r5 = (c ^= ca); V& r6 = (c <<= 1LL); V& r7 = (c >>= 1LL); V& r8 = (c <<= cb); V& r9 = (c >>= cb);
+      vp_use(&r1); vp_use(&r2); vp_use(&r3); vp_use(&r4); vp_use(&r5); vp_use(&r6); vp_use(&r7); vp_use(&r8); vp_use(&r9); }
     c = avel::popcount(a); c = avel::countl_zero(a); c = avel::countl_one(a); c = avel::countr_zero(a); c = avel::countr_one(a); m = avel::has_single_bit(a);
     typedef avel::Vector<typename std::conditional<std::is_signed<T>::value, typename std::make_unsigned<T>::type, typename std::make_signed<T>::type>::type, V::width> OV;
     OV o{a}; vp_use(avel::convert<OV>(a)); V back{o}; vp_use(back); typename OV::mask om{m}; vp_use(om); vp_use(avel::neg_abs(a));
@@ -154,6 +174,8 @@ template<class V> void use_float() {
     use_gather_scatter<V>(std::true_type());
     V a{T(3)}, b{T(5)}, c{}; M m{true}; IV e{};
     c = a / b; c /= b; c = avel::negate(m, a); c = avel::abs(a); c = avel::neg_abs(a);
+    { const V ca = a, cb = b; const M cm = m; c = ca / cb; V& r1 = (c /= cb); vp_use(&r1); c = avel::negate(cm, ca); c = avel::abs(ca); c = avel::fmax(ca, cb); c = avel::sqrt(ca); c = avel::floor(ca);
+      m = avel::isnan(ca); m = avel::signbit(ca); m = avel::isless(ca, cb); c = avel::copysign(ca, cb); c = avel::ldexp(ca, e); vp_use(avel::ilogb(ca)); }
     c = avel::fmax(a, b); c = avel::fmin(a, b); c = avel::fdim(a, b); c = avel::frac(a); c = avel::sqrt(a);
     c = avel::ceil(a); c = avel::floor(a); c = avel::trunc(a); c = avel::round(a); c = avel::nearbyint(a); c = avel::rint(a);
     c = avel::frexp(a, &e); c = avel::ldexp(a, e); c = avel::scalbn(a, e); e = avel::ilogb(a); c = avel::logb(a); c = avel::copysign(a, b);
